@@ -8,7 +8,7 @@ for m in sorted(glob.glob(V + '/seeded/C*/meta.json')):
     d = json.load(open(m))
     name = os.path.basename(os.path.dirname(m))
     tp = d.get('checks_run', {}).get(name.split('_')[0])
-    if tp and tp.get('quick_check_exit') == 1 and not tp.get('first_attempt_missed'):
+    if tp and tp.get('quick_check_exit') == 1 and not tp.get('first_attempt_missed') and not d.get('notes', '').startswith('first missed'):
         nfirst += 1
     caught = []
     for prop, r in sorted(d.get('checks_run', {}).items()):
@@ -30,8 +30,10 @@ and then ran the quick check of the targeted property on a scratch worktree with
 (`bin/seedtest.sh`). "first missed" notes say what was strengthened when a check did not catch a change at
 first; no check was loosened. %d changes, %d caught by the quick tier of the final machinery; %d of them were
 caught by the check of their target property the first time it was run against them, the others after the
-driver or the check was strengthened as the note says (eight rounds of changes, the last two 18 and 16 of 20; the rate of first-run catches per
-round is what to expect for a change nobody has looked at yet).
+driver or the check was strengthened as the note says (nine rounds of changes; rounds seven and eight 18 and 16 of 20; the ninth round asked for changes that need an exotic
+input - dimensions of 32768 and more, a million rows, exactly one word of columns above the cutoff, a full block cache, a
+destination larger than the block - and 10 of its 20 were caught at the first run, all 20 after the drivers were extended;
+the rate of first-run catches per round is what to expect for a change nobody has looked at yet).
 
 | seeded change | needs, to manifest | caught by (quick tier) | note |
 |---|---|---|---|
